@@ -51,6 +51,7 @@ func step(h *sh.H, rec *recorder, c M, first bool, prevIdx uint64, keys, prefixe
 	if first {
 		pre = h.Project(prevIdx)
 	}
+	edge := sh.EdgeKeys(h.Store())
 	dumpBefore := sh.Dump(h.Store())
 	fired := h.WatchAll(keys, prefixes)
 	evBefore := h.Pub.Count()
@@ -63,7 +64,7 @@ func step(h *sh.H, rec *recorder, c M, first bool, prevIdx uint64, keys, prefixe
 	idx := uint64(c["idx"].(float64))
 	ev := M{"cmd": c, "res": res, "post": h.Project(idx),
 		"facts": M{"dump_changed": sh.Dump(h.Store()) != dumpBefore, "watch_fired": fired(), "events": h.Pub.Count() - evBefore},
-		"reads": h.KVReads(keys, prefixes)}
+		"reads": h.KVReads(keys, prefixes), "edge": edge}
 	if first {
 		ev["pre"] = pre
 	}
@@ -104,7 +105,7 @@ func random(seed int64, n, length int, profile, out string, faults bool) {
 	rec := &recorder{w: bufio.NewWriterSize(f, 1<<20)}
 	for t := 0; t < n; t++ {
 		h := sh.New()
-		g := &sh.AbsGen{R: rand.New(rand.NewSource(seed*100003 + int64(t))), Store: h.Store, Profile: profile}
+		g := &sh.AbsGen{R: rand.New(rand.NewSource(seed*100003 + int64(t))), Store: h.Store, Profile: profile, Delays: true}
 		// fault schedule from a stream of its own: about one command in fourteen commits into a failing change-processing step
 		rf := rand.New(rand.NewSource(seed*7 + int64(t)*13 + 5))
 		for i := 0; i < length; i++ {
